@@ -167,6 +167,7 @@ def draw_cfg(r, profile):
         "p_multiline": r.choice([0.0, 0.3, 0.6]),
         "p_incstyle": r.choice([0.0, 0.2, 0.5]),
         "p_reentrant": r.choice([0.0, 0.0, 0.15, 0.3]),
+        "p_defaults_hdr": r.choice([0.0, 0.15, 0.3]),
         "hdr_name_style": r.choice(["plain", "plain", "odd"]),
         "p_forced_rel": r.choice([0.0, 0.5]),
         "cpp": r.random() < 0.3,
@@ -234,6 +235,7 @@ def draw_cfg(r, profile):
         c["p_once"] = r.choice([0.3, 0.6])
         c["p_resens"] = r.choice([0.5, 0.9])
         c["dot_includes"] = r.choice([0.0, 0.3])
+        c["excludes"] = r.random() < 0.2
         c["p_include"] = r.choice([0.25, 0.4, 0.5])
         c["n_hdr"] = r.choice([1, 2, 2, 3])
         c["p_guard"] = r.choice([0.0, 0.2])
@@ -366,7 +368,12 @@ class Gen:
                 out.append(["raw", [l.replace("@", str(self.uid)) for l in r.choice(RAW_SNIPPETS)]])
             elif k < 0.30 + pd + pi + 0.09:
                 # code that depends on a macro only a compiler pass / mode defines
-                out.append(["cond", [["ifdef", r.choice(PASS_MACROS), [["code", 1]]], ["else", None, [["code", 1]]]]])
+                if r.random() < 0.4:
+                    out.append(["cond", [["if", r.choice([["gt", "__CUDA_ARCH__", 750], ["eq", "__CUDA_ARCH__", 700],
+                                                          ["and", ["def", "__CUDA_ARCH__"], ["not", ["gt", "__CUDA_ARCH__", 799]]]]),
+                                          [["code", 1]]], ["else", None, [["code", 1]]]]])
+                else:
+                    out.append(["cond", [["ifdef", r.choice(PASS_MACROS), [["code", 1]]], ["else", None, [["code", 1]]]]])
             elif depth < self.cfg["depth"]:
                 chain = []
                 kind = r.choice(["if", "if", "ifdef", "ifndef"])
@@ -436,7 +443,17 @@ class Gen:
                     body = body + [["cond", [["ifdef", seen, [["code", 1]]]]],
                                    ["define", seen, None]]
                 k = r.random()
-                if r.random() < cfg.get("p_reentrant", 0.0):
+                if r.random() < cfg.get("p_defaults_hdr", 0.0):
+                    # a "defaults" header: nothing but several top-level #ifndef X / #define X v / #endif blocks
+                    ms = r.sample(FLAG_MACROS + NUM_MACROS, r.randint(2, 3))
+                    items = []
+                    for mm in ms:
+                        vv = str(r.choice([0, 1, 2])) if mm in NUM_MACROS else r.choice([None, "1", "2"])
+                        items.append(["cond", [[r.choice(["ifndef", "ifndef", "if"]), mm if True else None,
+                                                [["define", mm, vv]]]]])
+                        if items[-1][1][0][0] == "if":
+                            items[-1][1][0][1] = ["ndef", mm]
+                elif r.random() < cfg.get("p_reentrant", 0.0):
                     # a header that includes itself once more and takes the other branch the second time
                     # (multi-pass / X-macro style); the cycle ends through macro state
                     ps = f"PASS_{tag}"
@@ -472,9 +489,14 @@ class Gen:
             p = os.path.join(EXT_DIR, "xs0.c")
             files[p] = {"lang": "c", "items": self.items(0, hdrs, [r.randint(2, cfg["budget"])])}
             srcs.append(p)
+        if cfg["profile"] in ("c14", "c15") and r.random() < 0.25:
+            # two files whose names differ only in letter case
+            files[os.path.join(ROOT, "d1", "twin.c")] = {"lang": "c", "items": [["code", r.randint(1, 3)]]}
+            files[os.path.join(ROOT, "d1", "TWIN.c")] = {"lang": "c", "items": [["code", r.randint(1, 3)], ["blank"], ["code", 1]]}
+            files[os.path.join(ROOT, "d1", "Twin.c")] = {"lang": "c", "items": [["code", 1]]}
         # a file nobody compiles or includes
         if r.random() < 0.3:
-            files[os.path.join(ROOT, "d2", "unused.c")] = {"lang": "c", "items": [["code", 2]]}
+            files[os.path.join(ROOT, "d2", "unused.c")] = {"lang": "c", "items": [["code", 2]] + self.items(0, [], [3])}
         links = []
         if cfg.get("decorate"):
             links, self.alias = self.make_links(files)
